@@ -47,7 +47,10 @@ class CoopLock:
                 return True
             if not blocking:
                 return False
-            run.block(tid, self)
+            # a wait WITH a timeout can end in two ways; model time advances only when nothing else can happen: the timeout
+            # fires exactly when every unfinished thread waits (instead of calling that a deadlock)
+            if run.block(tid, self, can_timeout=(timeout is not None and timeout >= 0)) == "timeout":
+                return False
 
     __enter__ = acquire
 
@@ -120,8 +123,10 @@ class CoopRLock:
 
 def install_coop_locks():
     """threading.Lock / threading.RLock create cooperative locks from now on (call before the package is imported, so
-    that module-level locks of the package are covered too)."""
+    that module-level locks of the package are covered too). threading._allocate_lock is what Condition / Event /
+    Semaphore / queue.Queue use for their waiter locks, so those primitives become cooperative as well."""
     threading.Lock, threading.RLock = CoopLock, CoopRLock
+    threading._allocate_lock = CoopLock
 
 
 class _Baton:
@@ -184,6 +189,8 @@ class _Run:
         self.done_sem = _Baton()
         self.finished = [False] * self.n
         self.blocked = {}
+        self.can_timeout = set()
+        self.timed_out = set()
         self.x = Execution()
         self.current = None
         self.error = None
@@ -198,6 +205,13 @@ class _Run:
             return rest[0] if rest else None
         enabled = [t for t in range(self.n) if not self.finished[t] and (t not in self.blocked or not self.blocked[t].locked())]
         if not enabled:
+            waiting = sorted(t for t in self.blocked if not self.finished[t] and t in self.can_timeout)
+            if waiting:
+                # everybody waits, somebody with a timeout: the earliest such wait times out (ascending thread id)
+                t = waiting[0]
+                self.timed_out.add(t)
+                self.x.points.append((tid, (t,), 0, False, ("<timeout-fires>", t)))
+                return t
             if any(not f for f in self.finished):
                 self.x.deadlock = True       # unfinished threads exist but all of them wait for a held lock
                 self.x.deadlocked = sorted(self.blocked)
@@ -228,9 +242,11 @@ class _Run:
             self.sems[nxt].release()
             self.sems[tid].acquire()
 
-    def block(self, tid, lock):
-        """called by a harness thread whose lock acquisition cannot succeed now"""
+    def block(self, tid, lock, can_timeout=False):
+        """called by a harness thread whose lock acquisition cannot succeed now; -> None (retry) | "timeout" """
         self.blocked[tid] = lock
+        if can_timeout:
+            self.can_timeout.add(tid)
         nxt = self.decide(tid, False, ("<blocked-on-lock>", tid))
         if nxt == "deadlock":
             raise _DeadlockAbort()           # nobody can run: this thread unwinds first, the others follow
@@ -241,6 +257,11 @@ class _Run:
         if self.x.deadlock:
             raise _DeadlockAbort()
         self.blocked.pop(tid, None)
+        self.can_timeout.discard(tid)
+        if tid in self.timed_out:
+            self.timed_out.discard(tid)
+            return "timeout"
+        return None
 
     def thread_main(self, tid):
         self.sems[tid].acquire()
